@@ -134,6 +134,14 @@ def fmt_coord_v3000(v: float, rng: random.Random | None, exotic=False) -> str:
     s6 = f"{v:.6f}"
     if float(s6) == v:
         cands.append(s6)
+    if exotic and v != 0:
+        e = f"{v:.16e}"
+        if float(e) == v:
+            m, x = e.split("e")
+            m = m.rstrip("0").rstrip(".") if "." in m else m
+            cands.append(f"{m}e{int(x):+03d}")
+            cands.append(f"{m}E{int(x):+03d}")  # C/Fortran/Java writers print the marker in upper case
+            cands.append(f"{m}e{int(x)}")
     if rng is None:
         return cands[0]
     return rng.choice(cands)
@@ -422,12 +430,27 @@ def render_v3000(mol: Mol, style: V3Style | None = None, rng: random.Random | No
     for kind, content in logical:
         lines.extend(_split_logical(content, rng, style, kind, obs))
     lines.append("M  END")
-    text = style.eol.join(lines)
+    text = join_lines(lines, style.eol, rng)
+    e = "\n" if style.eol == "mixed" else style.eol
     if style.after_end:
-        text += style.eol + style.after_end.replace("\n", style.eol)
+        text += e + style.after_end.replace("\n", e)
     if style.final_eol:
-        text += style.eol
+        text += e
     return text
+
+
+def join_lines(lines, eol, rng):
+    """eol: a terminator string, or 'mixed' = every line gets its own terminator (a file edited on several systems)."""
+    if eol != "mixed":
+        return eol.join(lines)
+    out = []
+    for k, l in enumerate(lines):
+        out.append(l)
+        if k < len(lines) - 1:
+            # a bare CR directly followed by an EMPTY line ended by LF would read as one CRLF: never generate that ambiguity
+            choices = ["\n", "\r\n", "\r\n"] + ([] if lines[k + 1] == "" else ["\r"])
+            out.append(rng.choice(choices))
+    return "".join(out)
 
 
 def expected_after_star(mol: Mol):
@@ -647,11 +670,12 @@ def render_v2000(mol: Mol, style: V2Style | None = None, rng: random.Random | No
     prop = [l for rec in records for l in rec]
     lines.extend(prop)
     lines.append("M  END")
-    text = style.eol.join(lines)
+    text = join_lines(lines, style.eol, rng)
+    e = "\n" if style.eol == "mixed" else style.eol
     if style.after_end:
-        text += style.eol + style.after_end.replace("\n", style.eol)
+        text += e + style.after_end.replace("\n", e)
     if style.final_eol:
-        text += style.eol
+        text += e
     return text
 
 
